@@ -208,6 +208,9 @@ class Interp:
                 return self.cond(v.expr, v.env, depth)
             if isinstance(v, bool):
                 return v
+        if k == "mem" and (e.get("o") or {}).get("k") == "this" \
+                and isinstance(env.get("this." + e.get("m", "")), bool):
+            return env["this." + e["m"]]
         if k == "cast" or (k == "ctor" and len(e.get("a", ())) == 1):
             return self.cond(e["a"][0], env, depth)
         if k in ("call", "mcall") and depth < self.max_depth:
